@@ -8,7 +8,7 @@
    "grammatical" exact for relation definitions: [wf_rdef] is not only an upper bound of what the parser model
    returns (Proofs/ParserShape.parse_wf) but every such tree IS returned, for its canonical token sequence, at any
    nesting depth — so the theorems above quantify over exactly the trees the parser can produce. *)
-From Verif Require Import Base.Str Base.Outcome Model.Ast Model.Token Model.Parser Model.Listener
+From Verif Require Import Spec.DocDomain Base.Str Base.Outcome Model.Ast Model.Token Model.Parser Model.Listener
   Spec.Sem Proofs.ListenerSem Proofs.ListenerFile Proofs.ParserShape Proofs.ParserComplete Model.Lexer Model.Transform Proofs.LexRender
   Proofs.DeclRoundTrip Proofs.DocLex Proofs.DocParse Proofs.DocNatural Proofs.DocChars Proofs.DocSem Proofs.DocRoundTrip.
 
